@@ -81,6 +81,23 @@ class Universe:
     def G(self, i):
         return None if i == 0 else self.graphs[i - 1]
 
+    via_function = False   # route node-list edits through an ir.Function wrapping the graph
+    one_shot = False       # pass multi-element arguments as one-shot iterators instead of lists
+
+    def _seq(self, items):
+        return iter(list(items)) if self.one_shot else list(items)
+
+    def GF(self, i):
+        """The graph, or (when via_function) an ir.Function delegating to it."""
+        g = self.G(i)
+        if not self.via_function:
+            return g
+        if not hasattr(self, "_fwrap"):
+            self._fwrap = {}
+        if i not in self._fwrap:
+            self._fwrap[i] = ir.Function("vf", f"f{i}", graph=g, attributes=())
+        return self._fwrap[i]
+
     def vid(self, v) -> int:
         if v is None:
             return 0
@@ -120,7 +137,7 @@ class Universe:
         if op == "IOAppend":
             self._io(c).append(self.V(c["v"]))
         elif op == "IOExtend":
-            self._io(c).extend([self.V(x) for x in c["vs"]])
+            self._io(c).extend(self._seq(self.V(x) for x in c["vs"]))
         elif op == "IOInsert":
             self._io(c).insert(c["i"], self.V(c["v"]))
         elif op == "IOPop":
@@ -175,18 +192,31 @@ class Universe:
             finally:
                 self._adopt_fresh_outputs(n)
         elif op == "GAppend":
-            self.G(c["g"]).append(self.N(c["n"]))
+            self.GF(c["g"]).append(self.N(c["n"]))
         elif op == "GExtend":
-            self.G(c["g"]).extend([self.N(x) for x in c["vs"]])
+            self.GF(c["g"]).extend(self._seq(self.N(x) for x in c["vs"]))
         elif op == "GInsertBefore":
             ns = [self.N(x) for x in c["vs"]]
-            self.G(c["g"]).insert_before(self.N(c["n"]), ns[0] if len(ns) == 1 and c["flag"] else ns)
+            self.GF(c["g"]).insert_before(self.N(c["n"]), ns[0] if len(ns) == 1 and c["flag"] else self._seq(ns))
         elif op == "GInsertAfter":
             ns = [self.N(x) for x in c["vs"]]
-            self.G(c["g"]).insert_after(self.N(c["n"]), ns[0] if len(ns) == 1 and c["flag"] else ns)
+            self.GF(c["g"]).insert_after(self.N(c["n"]), ns[0] if len(ns) == 1 and c["flag"] else self._seq(ns))
         elif op == "GRemove":
             ns = [self.N(x) for x in c["vs"]]
-            self.G(c["g"]).remove(ns[0] if len(ns) == 1 else ns, safe=bool(c["flag"]))
+            self.GF(c["g"]).remove(ns[0] if len(ns) == 1 else self._seq(ns), safe=bool(c["flag"]))
+        elif op == "GSort":
+            self.GF(c["g"]).sort()
+        elif op == "NodePrepend":
+            ns = [self.N(x) for x in c["vs"]]
+            self.N(c["n"]).prepend(ns[0] if len(ns) == 1 and self.via_function else ns)
+        elif op == "NodeAppend":
+            ns = [self.N(x) for x in c["vs"]]
+            self.N(c["n"]).append(ns[0] if len(ns) == 1 and self.via_function else ns)
+        elif op == "InitSetdefault":
+            self.G(c["g"]).initializers.setdefault(_pyname(c["name"]), self.V(c["v"]))
+        elif op == "InitUpdate2":
+            v, w = self.V(c["v"]), self.V(c["w"])
+            self.G(c["g"]).initializers.update([(v.name, v), (w.name, w)])
         elif op == "NewNode":
             ins = [self.V(x) for x in c["vs"]]
             k = len(self.nodes) + 1
